@@ -80,7 +80,13 @@ func init() {
 				}
 				it.Close()
 				x.s.Point("op")
+				// in key order: the order of a map range would differ from one execution to the next
+				gk := make([]string, 0, len(st.want))
 				for k := range st.want {
+					gk = append(gk, k)
+				}
+				sort.Strings(gk)
+				for _, k := range gk {
 					st.gets[k] = getStr(txn, k)
 				}
 			}}
